@@ -1,5 +1,7 @@
 SPECIFICATION Spec
 CONSTANT Which = "C17"
+CONSTANT SmallLen = 5
+CONSTANT AsBuilt = {}
 CONSTANT MaxLen = 3
 INVARIANTS StaysOnOrigin OnlyOwnHttpsHosts
 CHECK_DEADLOCK FALSE
